@@ -685,6 +685,12 @@ func main() {
 		addBlockReq(run, c)
 	}
 	for _, c := range requestCases(rng, o.Thorough()) {
+		// every death or hang costs a deadline and a restart: once the verdict is beyond doubt
+		// the remaining hostile URLs are skipped so that a broken tree is still reported quickly
+		if c.Fam == 10 && srv.deaths >= 15 {
+			run.Count("skipped:hostile-url-after-15-deaths-or-hangs")
+			continue
+		}
 		addReq(run, c)
 	}
 	for _, c := range elementCases(rng, o.Thorough()) {
